@@ -202,6 +202,31 @@ pub mod net {
         Ok(FaultPeer { addr, mode, hits })
     }
 
+    /// every participant answers from the same in-process context (what a healthy cluster does)
+    pub struct InProc { pub peer: Arc<ExecutionContext> }
+    #[async_trait::async_trait]
+    impl query_engine::distributed::FragmentTransport for InProc {
+        async fn send(&self, _address: &str, req: &FragmentRequest) -> query_engine::error::Result<(Vec<u8>, usize, f64)> {
+            let (r, _) = execute_fragment(&self.peer, req).await?;
+            let bytes = encode_ipc(&r.schema, &r.batches)?;
+            Ok((bytes, r.row_count, 0.0))
+        }
+    }
+
+    /// POST that keeps going when the server answers and closes before the body is fully sent (413 / 503 on a huge body):
+    /// write errors are ignored and whatever response arrived is parsed. `None` = no status line was received.
+    pub async fn tolerant_post(addr: &str, path_q: &str, body: &[u8]) -> Option<query_engine::distributed::HttpResponse> {
+        let mut s = tokio::net::TcpStream::connect(addr).await.ok()?;
+        let head = format!("POST {path_q} HTTP/1.1\r\nHost: {addr}\r\nConnection: close\r\nContent-Length: {}\r\nContent-Type: text/plain\r\n\r\n", body.len());
+        let _ = s.write_all(head.as_bytes()).await;
+        for chunk in body.chunks(16 * 1024) { if s.write_all(chunk).await.is_err() { break; } }
+        let _ = s.flush().await;
+        let mut raw = Vec::new();
+        let mut tmp = [0u8; 4096];
+        loop { match tokio::time::timeout(Duration::from_secs(20), s.read(&mut tmp)).await { Ok(Ok(0)) | Ok(Err(_)) | Err(_) => break, Ok(Ok(n)) => raw.extend_from_slice(&tmp[..n]) } }
+        http_client::verif_parse_response(&raw).ok()
+    }
+
     /// an address nothing listens on (bound once, then released)
     pub fn dead_address() -> String {
         let l = std::net::TcpListener::bind("127.0.0.1:0").expect("bind");
@@ -362,20 +387,37 @@ async fn run_on(world: &World, c: &Value, h: &ServerHandle, ready: bool) -> Valu
             Err(e) => local = exec_class(&e),
         }
     }
-    // does the fault peer hold an active shard of this statement (n = members up, shard order = address order)?
+    // the participants this node would use, in the order its membership renders them (self + peers seen Up)
+    let ups: Vec<(String, bool)> = view["members"].as_array().map(|a| a.iter().filter(|m| m["is_self"] == true || m["status"] == "up")
+        .map(|m| (m["address"].as_str().unwrap_or("").to_string(), m["is_self"] == true)).collect()).unwrap_or_default();
+    // does the fault peer hold an active shard of this statement?
     let mut peer_active = false;
-    if c["node"] == "I" && !tables.is_empty() && up == 2 {
-        let mut addrs = vec![h.address().to_string(), world.fault.addr.clone()];
-        addrs.sort();
-        let peer_ix = addrs.iter().position(|a| *a == world.fault.addr).unwrap_or(0);
-        for t in &tables { if let Ok(set) = splits_of(&ctx, t, 2) { if assign_lpt(&set, 2).node_splits[peer_ix] > 0 { peer_active = true; } } }
+    if c["node"] == "I" && !tables.is_empty() {
+        if let Some(peer_ix) = ups.iter().position(|(a, _)| *a == world.fault.addr) {
+            for t in &tables { if let Ok(set) = splits_of(&ctx, t, ups.len()) { if assign_lpt(&set, ups.len()).node_splits[peer_ix] > 0 { peer_active = true; } } }
+        }
     }
+    // what a distributed execution over these participants yields when every peer is healthy (the REAL coordinator, in-process peers)
+    if is_stmt && path == "/sql" && dist == "ok" && !ups.is_empty() {
+        let parts: Vec<query_engine::distributed::Participant> = ups.iter().enumerate()
+            .map(|(i, (a, me))| query_engine::distributed::Participant { node_id: i as u64, address: a.clone(), is_self: *me }).collect();
+        match query_engine::distributed::execute_any_distributed(&ctx, &sql, &parts, &InProc { peer: ctx.clone() }).await {
+            Ok(_) => {}
+            Err(e) => dist = exec_class(&e),
+        }
+    }
+    let fault_active = c["node"] == "I" && peer_active && c.get("fault").map(|f| !f.is_null() && f != "healthy").unwrap_or(false);
+    if fault_active && dist == "ok" { dist = "error"; }
 
-    let resp = http_client::request(&addr, "POST", &format!("{path}?{q}"), Some("text/plain; charset=utf-8"), Some(&body), HTTP_TIMEOUT).await;
-    let resp = match resp { Ok(r) => r, Err(e) => return json!({"transport_error": e.to_string()}) };
+    let resp = if c["body"]["k"] == "huge" {
+        match tolerant_post(&addr, &format!("{path}?{q}"), &body).await { Some(r) => r, None => return json!({"transport_error": "no response to an oversized request"}) }
+    } else {
+        match http_client::request(&addr, "POST", &format!("{path}?{q}"), Some("text/plain; charset=utf-8"), Some(&body), HTTP_TIMEOUT).await {
+            Ok(r) => r, Err(e) => return json!({"transport_error": e.to_string()}) }
+    };
     let mut out = json!({"status": resp.status, "distributed": resp.header("x-qe-distributed"), "skipped": resp.header("x-qe-distributed-skipped"),
         "rows_hdr": resp.header("x-qe-rows"), "ctype": resp.header("content-type"), "shards": resp.header("x-qe-shards"),
-        "local": local, "dist": dist, "plan_ok": plan_ok, "members_up": up, "members_total": total, "ready": ready, "peer_active": peer_active, "format": fmt});
+        "local": local, "dist": dist, "plan_ok": plan_ok, "members_up": up, "members_total": total, "ready": ready, "peer_active": peer_active, "fault_active": fault_active, "format": fmt});
     if resp.status != 200 {
         out["error"] = json!(serde_json::from_slice::<Value>(&resp.body).ok().and_then(|v| v["error"].as_str().map(|s| s.chars().take(200).collect::<String>())));
         return out;
@@ -495,7 +537,7 @@ const MODES: &[&str] = &["", "distributed=auto", "distributed=1", "distributed=t
 const FORMATS: &[&str] = &["", "format=arrow", "format=ipc", "format=json", "format=csv", "format=jsonl", "format=CSV", "format=csv&format=json"];
 
 fn query_string(r: &mut Rng, valid_bias: bool) -> String {
-    let m = if valid_bias { *r.pick(&MODES[..10]) } else { *r.pick(MODES) };
+    let m = if valid_bias { if r.chance(1, 3) { *r.pick(&MODES[..2]) } else { *r.pick(&MODES[..10]) } } else { *r.pick(MODES) };
     let f = if valid_bias { *r.pick(&FORMATS[..5]) } else { *r.pick(FORMATS) };
     let mut parts: Vec<&str> = vec![];
     if !f.is_empty() { parts.push(f); }
